@@ -1099,6 +1099,14 @@ class ExponentialRateChanges(DiscretizedRateChanges):
             # noinspection all
             return lambda t, g=g, t0=t0, x0=x0: x0 * np.exp(- g * (t - t0))
 
+        # initial population sizes must be positive and initial migration rates non-negative
+        for k, x0 in initial_rate.items():
+            if isinstance(k, str) and x0 <= 0:
+                raise ValueError('Population sizes must be positive at all times.')
+
+            if isinstance(k, tuple) and x0 < 0:
+                raise ValueError('Migration rates must not be negative at all times.')
+
         super().__init__(
             trajectory={k: get_trajectory(k) for k in initial_rate},
             start_time=start_time,
